@@ -30,10 +30,11 @@
 
 from typing import Tuple, Optional, Dict
 
+from deep import logging
 from deep.api.tracepoint import Variable, VariableId
 from deep.processor.bfs import ParentNode, Node, NodeValue, breadth_first_search
 from deep.processor.variable_processor import process_variable, \
-    process_child_nodes, Collector, safe_str
+    process_child_nodes, Collector, safe_str, type_name, VariableResponse
 
 
 class VariableCacheProvider:
@@ -218,7 +219,13 @@ class VariableSetProcessor(Collector):
         # walked it (attributes computed on demand) would hand its id to the next object at that address
         self.__var_cache.pin(node_value.value)
         # process this node variable
-        process_result = process_variable(self, node_value)
+        try:
+            process_result = process_variable(self, node_value)
+        except BaseException:
+            # whatever this value does when it is looked at: it is represented by a placeholder, and the values next
+            # to it are still collected
+            logging.debug("Cannot process a %s", type(node_value.value))
+            process_result = self.__placeholder(node_value)
         var_id = process_result.variable_id
         # add the result to the parent - this maintains the hierarchy in the var look up
         node.parent.add_child(var_id)
@@ -226,9 +233,24 @@ class VariableSetProcessor(Collector):
         # some variables do not want the children processed (e.g. strings)
         if process_result.process_children:
             # process children and add to node
-            child_nodes = process_child_nodes(self, var_id.vid, node_value.value, node.depth)
+            try:
+                child_nodes = process_child_nodes(self, var_id.vid, node_value.value, node.depth)
+            except BaseException:
+                # whatever this value does when it is asked for its parts (an attribute mapping that cannot be read,
+                # a key that cannot be named): it is shown without them, the walk goes on with the other values
+                logging.debug("Cannot collect the children of a %s", type(node_value.value))
+                child_nodes = []
             node.add_children(child_nodes)
         return True
+
+    def __placeholder(self, node_value: NodeValue) -> VariableResponse:
+        identity_hash_id = str(id(node_value.value))
+        var_id = self.check_id(identity_hash_id)
+        if var_id is None:
+            name = type_name(type(node_value.value))
+            var_id = self.new_var_id(identity_hash_id)
+            self.append_variable(var_id, Variable(name, '%s@%s' % (name, identity_hash_id), identity_hash_id, [], False))
+        return VariableResponse(VariableId(var_id, node_value.name, [], node_value.original_name), process_children=False)
 
     def check_var_count(self):
         """Check if we have processed our max set of variables."""
